@@ -343,13 +343,15 @@ impl<Payload: for<'de> Deserialize<'de>> JWT<Payload> {
             .ok_or_else(Response::Unauthorized)?;
         let payload: Payload = part_value(payload_part)?;
         let now = crate::util::unix_timestamp();
-        if payload.get("nbf").is_some_and(|nbf| nbf.as_u64().unwrap_or(0) > now) {
+        /* NumericDate is a JSON number: it may have a fraction (or be negative), so compare as `f64`;
+           `as_u64` made `"exp": 1700000000.0` count as `never expires` */
+        if payload.get("nbf").is_some_and(|nbf| nbf.as_f64().unwrap_or(0.) > now as f64) {
             return Err(Response::Unauthorized().with_text(UNAUTHORIZED_MESSAGE))
         }
-        if payload.get("exp").is_some_and(|exp| exp.as_u64().unwrap_or(u64::MAX) <= now) {
+        if payload.get("exp").is_some_and(|exp| exp.as_f64().unwrap_or(f64::INFINITY) <= now as f64) {
             return Err(Response::Unauthorized().with_text(UNAUTHORIZED_MESSAGE))
         }
-        if payload.get("iat").is_some_and(|iat| iat.as_u64().unwrap_or(0) > now) {
+        if payload.get("iat").is_some_and(|iat| iat.as_f64().unwrap_or(0.) > now as f64) {
             return Err(Response::Unauthorized().with_text(UNAUTHORIZED_MESSAGE))
         }
 
